@@ -84,6 +84,23 @@ CHECKS = {
              'recorder and compared with an independent normaliser.',
         note='Catalogue bounds in evidence; DNS rebinding and redirects out '
              'of scope.'),
+    'C06': dict(
+        level='model_checking', design='3/C06',
+        technique='explicit-state model checking of the implementation: '
+                  'DFS over interleavings x fault menu (duplicate delivery '
+                  'of any one message at every later point, lost executor + '
+                  'redelivery); step and terminal oracles',
+        text='Programs x results: every already delivered '
+             'on_action_complete / start_task / start_workflow(with id) / '
+             'run_action message is delivered once more at every later '
+             'point, and a pending run_action is lost with its executor and '
+             'redelivered; at every state: <= 1 accepted result per action, '
+             'no second dispatch of an action, no second execution of a '
+             'task, one root execution, a redelivered non-safe-rerun action '
+             'is not run and reports exactly one error; terminal outcome '
+             'allowed by the duplicate-free semantics.',
+        note='The raise+rollback of a duplicate result is the mechanism, '
+             'not a violation; atomic transactions.'),
     'C10': dict(
         level='model_checking', design='3/C10',
         technique='explicit-state model checking of the implementation: '
